@@ -171,7 +171,7 @@ func c19Tables(outDir string) {
 	bg := example.VerifBoolParser()
 	bools := []bool{false, true}
 	b.WriteString("Definition ex_bool_ops : list (str * bool * bool * list (option bool)) := [")
-	for i, op := range bg.VerifOperators() {
+	for i, op := range bg.VerifGenericOperators() {
 		if i > 0 {
 			b.WriteString(";")
 		}
@@ -235,7 +235,7 @@ func c19Tables(outDir string) {
 	b.WriteString("(* example/minimal.go through the hook example.VerifMinimal: operators with IsPure, IsCommutative *)\n")
 	fg := example.VerifMinimal()
 	b.WriteString("Definition ex_float_ops : list (str * bool * bool) := [")
-	for i, op := range fg.VerifOperators() {
+	for i, op := range fg.VerifGenericOperators() {
 		if i > 0 {
 			b.WriteString("; ")
 		}
@@ -268,7 +268,7 @@ func c19Tables(outDir string) {
 	// samples of the real operator implementations: (operator, a, b, result); the model must agree wherever it is defined
 	b.WriteString("Definition ex_float_op_samples : list (str * fl * fl * option fl) := [")
 	n = 0
-	for _, op := range fg.VerifOperators() {
+	for _, op := range fg.VerifGenericOperators() {
 		for _, x := range c19FloatSamples {
 			for _, y := range c19FloatSamples {
 				v, err := op.Impl.Calc(funcGen.NewEmptyStack[float64](), x, y)
@@ -618,7 +618,7 @@ func c19NewBool() *c19Bool {
 	b := &c19Bool{consts: map[string]bool{}, impl: map[string]funcGen.OperatorImpl[bool]{}, uimpl: map[string]funcGen.UnaryOperatorImpl[bool]{}}
 	b.inst = c19Inst{Name: "bool", Args: []string{"a", "b", "c"}}
 	var orig []bool
-	for _, op := range base.VerifOperators() {
+	for _, op := range base.VerifGenericOperators() {
 		b.inst.Ops = append(b.inst.Ops, op.Operator)
 		b.impl[op.Operator] = op.Impl
 		orig = append(orig, op.IsCommutative)
@@ -772,7 +772,7 @@ func c19NewFloat() *c19Float {
 	f := &c19Float{consts: map[string]float64{}}
 	f.inst = c19Inst{Name: "float", Args: []string{"a", "b"}}
 	var orig []bool
-	for _, op := range base.VerifOperators() {
+	for _, op := range base.VerifGenericOperators() {
 		f.inst.Ops = append(f.inst.Ops, op.Operator)
 		orig = append(orig, op.IsCommutative)
 	}
